@@ -70,6 +70,8 @@ PATTERN_TEXTS = [
     "5 * (8h * t)", "2 + (3 + x)", "2 * (3 * x)", "2 + ((3 + x) + y)", "2 * ((3 * x) * y)",
     "(7q * 10y^3) * x", "7q * 10y^3", "7 * (10y^3 * x)", "792z^4 * (490f * q^3)", "(7q * z) * ((10y * z) * x)",
     "(u^3 * 36c^6) * 7u^3", "(u * (36 * c)) * (7 * u)", "2 = 3", "2 + 3 = 5", "1 / 0", "0 ^ -1", "x + 2 / 0",
+    "0.00002 * (0.00003 * x)", "x + (0.0000000004 + 0.0000000003) * 10000000000", "0.00002 * 0.00003 * y",
+    "0.00001x + 0.00002x", "0.000001 * 0.000002", "y * 0.00005 * 0.00007", "0.0000000004 + 0.0000000003",
     "2 - (3 - x)", "2 * (3 + x)", "2 + (3 * x)", "4 ^ 0.5", "2 ^ -1", "0 ^ 0", "-(2 = 2)",
     # factor out
     "4x + 2x", "4x + -3x", "x + x", "x^2 + x^2", "4x^2 + 6x^2", "x^0 + x", "x^0 + x^0", "0.5x^2 + 0.5x^2",
@@ -139,6 +141,9 @@ VARS = list("xyzabc")
 
 def rand_const(rng):
     r = rng.random()
+    if r < 0.04:
+        # very small magnitudes: folding two of them must not lose the result (6e-10 is not 0)
+        return F(rng.choice([2, 3, 5, -4]), rng.choice([10**5, 10**5, 10**6, 10**10]))
     if r < 0.55:
         return F(rng.randint(0, 12))
     if r < 0.7:
